@@ -365,7 +365,7 @@ func build(tier string) ([]runner.Instance, time.Duration) {
 }
 
 func main() {
-	runner.Main(runner.Options{Property: "C10", Level: "fault_enumeration", Build: build,
+	runner.Main(runner.Options{Property: "C10", Level: "fault_enumeration", Build: build, RacePoints: true,
 		Rule:   "fault matrix {absent, ok, error, panic}^3 for Run/Shutdown/Cleanup x {absent, ok, panic} ErrorHandler x {Run returns, Close, parent cancel}, every cell under every schedule up to the deviation bound; plus 1-3 concurrent Start callers x Close x Wait on representative cells; evaluations = executions; distinct_nontrivial = distinct visible-step sequences with real contention",
 		Assume: []string{"model of sync/context/channels in verif/vs (DESIGN §2.2)", "absent Run: the nil call panics inside the service; only the phase order clauses are asserted for it", "a Wait racing Start that answers ErrServiceNotStarted is not constrained; every other Wait is"}})
 }
